@@ -298,7 +298,7 @@ def impl(c):
     if a[0] == 'ipr':
         _, ver, s, ver2, e, step, cap = a
         try:
-            xs, more = _ints(iter_iprange(IPAddress(s, ver), IPAddress(e, ver2), step), cap)
+            xs, more = _ints(common.paired(lambda: iter_iprange(IPAddress(s, ver), IPAddress(e, ver2), step)), cap)
         except Exception:
             return '!'
         return _show_addrs(xs, ver) + ('+' if more else '')
@@ -307,7 +307,7 @@ def impl(c):
     ver = _bounds(o)[0]
     if a[0] == 'iter':
         try:
-            xs, more = _ints(iter(x), a[2])
+            xs, more = _ints(common.paired(lambda: iter(x)), a[2])
         except Exception as e:
             return '!' + errname(e)
         return _show_addrs(xs, ver) + ('+' if more else '')
@@ -329,7 +329,7 @@ def impl(c):
         return '%d:%d' % (r.version, int(r))
     if a[0] == 'slice':
         try:
-            xs = list(itertools.islice(x[a[2]:a[3]:a[4]], 5000))
+            xs = list(itertools.islice(common.paired(lambda: x[a[2]:a[3]:a[4]]), 5000))
         except Exception as e:
             return '!' + errname(e)
         return _show_addrs(xs, ver)
